@@ -820,6 +820,7 @@ def _tiff_writer(eng, args, kwargs):
 
 # ------------------------------------------------------------------ np.stack of a symbolic number of frames
 STACK0 = z3.Function("np_stack_axis0", z3.ArraySort(_I, _I), _I, _I)  # (frames column, count) -> the stacked array (a reference)
+STACKN = z3.Function("np_stack_axis", z3.ArraySort(_I, _I), _I, _I, _I)  # the same along another axis (kept apart: a different array)
 
 
 def _np_stack_frames(stock):
@@ -827,49 +828,17 @@ def _np_stack_frames(stock):
         v = args[0] if args else kwargs.get("arrays")
         if isinstance(v, PList) and v.items is None and list(v.kinds) == ["ref"] and not v.tup:
             axis = kwargs.get("axis", args[1] if len(args) > 1 else 0)
-            if axis != 0:
-                raise Unsupported("np.stack of a symbolic number of frames along an axis other than 0")
-            used(eng, "np.stack(frames, axis=0) of a symbolic number of frames: a reference np_stack_axis0(frames, count) determined by the frames in order "
-                      "(out[j] = frames[j]; equal frame shapes are numpy's own precondition)")
+            if not isinstance(axis, int) or isinstance(axis, bool):
+                raise Unsupported("np.stack with a non-constant axis")
+            used(eng, "np.stack(frames, axis) of a symbolic number of frames: a reference determined by the frames in order, their count and the axis "
+                      "(axis 0: out[j] = frames[j]; equal frame shapes are numpy's own precondition)")
             log_call(eng, "np.stack", frames=v, axis=axis)
-            return Sym(STACK0(v.cols[0], zint(v.n)), "ref")
+            if axis == 0:
+                return Sym(STACK0(v.cols[0], zint(v.n)), "ref")
+            return Sym(STACKN(v.cols[0], zint(v.n), z3.IntVal(axis)), "ref")
         return stock(eng, args, kwargs)
 
     return model
-
-
-def install():
-    from . import narr
-
-    for t in (np.float64, np.float32, np.float16):
-        EXTRA_MODELS[t] = _np_scalar_ctor(t)
-    EXTRA_MODELS[np.dtype] = _np_dtype
-    EXTRA_MODELS[np.moveaxis] = _np_moveaxis
-    EXTRA_MODELS[np.expand_dims] = _np_expand_dims
-    EXTRA_MODELS[np.argsort] = _np_argsort
-    EXTRA_MODELS[np.floor] = _floor_ceil(True)
-    EXTRA_MODELS[np.ceil] = _floor_ceil(False)
-    EXTRA_MODELS[np.min] = _col_extreme(True, narr.NP_MODELS[np.min])
-    EXTRA_MODELS[np.max] = _col_extreme(False, narr.NP_MODELS[np.max])
-    EXTRA_MODELS[int] = _b_int_trunc
-    EXTRA_METHODS[(SArr, "reshape")] = _sarr_reshape
-    _install_io()
-    try:
-        import tifffile
-
-        EXTRA_MODELS[tifffile.imwrite] = _imwrite
-        EXTRA_MODELS[tifffile.TiffFile] = _tifffile_open
-    except ImportError:  # pragma: no cover
-        pass
-    try:
-        import sdflit
-
-        EXTRA_MODELS[sdflit.Sphere] = _sphere
-        EXTRA_MODELS[sdflit.RoundCone] = _round_cone
-        EXTRA_MODELS[sdflit.SDFObject] = _sdf_object
-        EXTRA_MODELS[sdflit.RangeSampler] = _range_sampler
-    except ImportError:  # pragma: no cover
-        pass
 
 
 def _install_io():
